@@ -313,6 +313,11 @@ fn large_menu(kind: Kind, tier: Tier) -> Vec<(Cfg, usize)> {
             // tells floor from ceiling (and the cap at size does not hide it)
             let h: Vec<Op> = [5u8, 4, 7, 2, 1].iter().map(|k| Op::Put(*k, 0)).chain([Op::Get(2)]).chain([9u8, 7, 3, 4, 10, 5, 6].iter().map(|k| Op::Put(*k, 0))).collect();
             mk(Cfg::base(Kind::Arc, &[4], 12), h, &mut v);
+            // |B1| = 1, |B2| = 3, p = 2 < size 4: the next recent-ghost hit wants to add 3 to p, so the clamp
+            // `p + delta > size` has to be taken with the real delta (round 7: a clamp tested with delta = 1
+            // lets p pass size, and the next miss underflows `size - p`)
+            let h: Vec<Op> = [2u8, 1, 7, 1, 0, 4, 2, 6, 6, 7, 8, 5, 0].iter().map(|k| Op::Put(*k, 0)).collect();
+            mk(Cfg::base(Kind::Arc, &[4], 12), h, &mut v);
         }
         Kind::Wtlfu => {
             let mut c = Cfg::base(Kind::Wtlfu, &[2, 6, 4], 16);
@@ -428,6 +433,17 @@ pub fn plan(prop: &str, tier: Tier) -> Vec<RunSpec> {
                     let mut s = spec(c, obs_want());
                     s.max_depth = d - 2;
                     out.push(s);
+                }
+                if k == Kind::Arc {
+                    // the two roots with uneven ghost lists: the adaptation arithmetic (division, clamp, `size - p`)
+                    // is where an ARC operation can panic
+                    let roots = large_menu(k, tier);
+                    let n = roots.len();
+                    for (c, d) in roots.into_iter().skip(n - 2) {
+                        let mut s = spec(c, obs_want());
+                        s.max_depth = d - 2;
+                        out.push(s);
+                    }
                 }
             }
             // iterators driven from both ends (every word of next / next_back up to len+2) and the conversions,
